@@ -67,6 +67,11 @@ func resolveTypeText(pkg *types.Package, t string) types.Type {
 		return types.NewPointer(resolveTypeText(pkg, t[1:]))
 	case strings.HasPrefix(t, "[]"):
 		return types.NewSlice(resolveTypeText(pkg, t[2:]))
+	case strings.HasPrefix(t, "map["):
+		// map[K]V (K without brackets)
+		if i := strings.Index(t, "]"); i > 0 {
+			return types.NewMap(resolveTypeText(pkg, t[4:i]), resolveTypeText(pkg, t[i+1:]))
+		}
 	}
 	switch t {
 	case "int":
@@ -303,6 +308,18 @@ func (e *SpecEnv) Eval(x SExpr) SV {
 		return e.index(v, i)
 	case SSliceE:
 		v := e.Eval(x.X)
+		if isString(v.Typ) {
+			// s[lo:hi] of a string: the executor's Str_sub
+			lo := "0"
+			if x.Lo != nil {
+				lo = e.Eval(x.Lo).Term
+			}
+			hi := "(Str_len " + v.Term + ")"
+			if x.Hi != nil {
+				hi = e.Eval(x.Hi).Term
+			}
+			return SV{Term: fmt.Sprintf("(Str_sub %s %s %s)", v.Term, lo, hi), Typ: v.Typ}
+		}
 		if _, ok := v.Typ.Underlying().(*types.Slice); !ok {
 			e.fail("slice expr on non-slice")
 		}
